@@ -749,6 +749,8 @@ func checkC11(c *core.Ctx) {
 	ruleDecoratorCompleteness(c, "DECO/all", nil)
 	// identical metadata on the copy: the import's metadata writers merge like the originals (C17)
 	ruleMetadataMerge(c)
+	// identical schemas on the copy (shared with C30)
+	ruleImportSchemaVerbatim(c)
 	// nextval only when ID == nil: shared with C16
 	for _, u := range []string{"InsertTransaction", "InsertLog"} {
 		if d := fn(c, pkgStore, "Store", u); d != nil {
